@@ -28,8 +28,12 @@ from .values import (
 
 _buf_ids = itertools.count()
 
+# injective index constructors (row-major flattening abstracted as an uninterpreted function):
+# decl name -> list of inverse function decls (one per argument)
+INJECTIVE: dict = {}
+
 # hooks installed by the interpreter context
-HOOKS = {"read": None, "write": None, "bounds": None}
+HOOKS = {"read": None, "write": None, "bounds": None, "fact": None}
 
 
 def _and(*cs):
@@ -99,7 +103,8 @@ class MapLayer(Content):
 
     def _solve(self):
         consts = [v for v, _, _ in self.vars]
-        self.pos = {}  # const id -> (position, offset term d  with idx[p] = v + d)
+        self.pos = {}  # const id -> ('direct', position, d) with idx[p] = v + d
+        #                          | ('ctor', position, arg number, inverse decl, d)
         used = set()
         for v in consts:
             found = None
@@ -108,13 +113,26 @@ class MapLayer(Content):
                     continue
                 d = z3.simplify(e - v)
                 if not mentions(d, consts):
-                    found = (p, d)
+                    found = ("direct", p, d)
+                    used.add(p)
                     break
+            if found is None:
+                for p, e in enumerate(self.idx):
+                    if not is_sym(e) or not z3.is_app(e) or e.decl().name() not in INJECTIVE:
+                        continue
+                    invs = INJECTIVE[e.decl().name()][0]
+                    for j, a in enumerate(e.children()):
+                        if mentions(a, [v]):
+                            d = z3.simplify(a - v)
+                            if not mentions(d, consts):
+                                found = ("ctor", p, j, invs[j], d)
+                                break
+                    if found:
+                        break
             if found is None:
                 raise Unsupported(
                     f"write index {self.idx} is not an injective unit-stride function of loop variable {v}"
                 )
-            used.add(found[0])
             self.pos[v.get_id()] = found
         self.used_positions = used
 
@@ -122,8 +140,13 @@ class MapLayer(Content):
         """substitution v -> k[p]-d and the membership condition for buffer index k"""
         subs = []
         for v, _, _ in self.vars:
-            p, d = self.pos[v.get_id()]
-            subs.append((v, to_z3(k[p]) - d))
+            f = self.pos[v.get_id()]
+            if f[0] == "direct":
+                _, p, d = f
+                subs.append((v, to_z3(k[p]) - d))
+            else:
+                _, p, j, inv, d = f
+                subs.append((v, inv(to_z3(k[p])) - d))
         conds = []
         for v, lo, hi in self.vars:
             vi = z3.substitute(v, *subs)
@@ -137,6 +160,8 @@ class MapLayer(Content):
             if p in self.used_positions:
                 continue
             e_s = z3.substitute(to_z3(e), *subs) if is_sym(e) else e
+            if is_sym(e_s):
+                instantiate_injective_axioms(e_s)
             conds.append(compare("==", k[p], e_s))
         return subs, _and(*[c for c in conds if c is not True])
 
@@ -149,6 +174,41 @@ class MapLayer(Content):
         if cc is True:
             return val
         return ite(c, val, self.parent.read(k))
+
+
+def injective_axiom(t):
+    """guarded inverse / range facts of a flattening term t = F(a_0, .., a_n) (true of row-major
+    flattening):  trailing components in range => unflat_j(t) = a_j ;  all in range => 0 <= t < prod N"""
+    invs, dims = INJECTIVE[t.decl().name()]
+    args = t.children()
+    rng = [z3.And(args[j] >= 0, args[j] < to_z3(dims[j])) for j in range(len(args))]
+    guard = z3.And(*rng[1:]) if len(args) > 1 else z3.BoolVal(True)
+    total = to_z3(dims[0])
+    for d in dims[1:]:
+        total = total * to_z3(d)
+    return z3.And(
+        z3.Implies(guard, z3.And(*[invs[j](t) == args[j] for j in range(len(args))])),
+        z3.Implies(z3.And(*rng), z3.And(t >= 0, t < total)),
+    )
+
+
+_axiom_seen = set()
+
+
+def instantiate_injective_axioms(e):
+    if not INJECTIVE or HOOKS["fact"] is None:
+        return
+    todo = [e]
+    seen = set()
+    while todo:
+        x = todo.pop()
+        if x.get_id() in seen:
+            continue
+        seen.add(x.get_id())
+        if z3.is_app(x) and x.decl().name() in INJECTIVE and x.get_id() not in _axiom_seen:
+            _axiom_seen.add(x.get_id())
+            HOOKS["fact"](injective_axiom(x))
+        todo.extend(x.children())
 
 
 class Buf:
